@@ -13,6 +13,7 @@ import (
 	"sort"
 	"strconv"
 	"strings"
+	"syscall"
 	"time"
 
 	"verif/vsched"
@@ -184,10 +185,13 @@ func WorkerMain(p *Prop, tier string, shard, nshards int, out string, deadline t
 	enc := json.NewEncoder(w)
 	env := &Env{Tier: tier, Deadline: deadline}
 
-	for i, c := range cells {
-		if i%nshards != shard {
-			continue
+	for {
+		i := nextCell(filepath.Join(filepath.Dir(out), "next"), shard, nshards, len(cells))
+		if i < 0 {
+			break
 		}
+
+		c := cells[i]
 
 		if time.Now().After(deadline) {
 			_ = enc.Encode(CellResult{Cell: c.ID, Exhaustive: false, CapHit: "check budget exhausted before this cell was started", Skipped: "budget"})
@@ -213,6 +217,46 @@ func WorkerMain(p *Prop, tier string, shard, nshards int, out string, deadline t
 	}
 
 	_ = os.Remove(out + ".cur")
+}
+
+// nextCell hands out cell indices to the workers of one check: a counter file next to the result files,
+// advanced under flock (cells differ a lot in cost, so static striding leaves most cores idle).
+var localNext = -1
+
+func nextCell(path string, shard, nshards, n int) int {
+	f, err := os.OpenFile(path, os.O_RDWR, 0)
+	if err != nil {
+		// no shared counter (stand-alone worker): static striding
+		if localNext < 0 {
+			localNext = shard
+		} else {
+			localNext += nshards
+		}
+
+		if localNext >= n {
+			return -1
+		}
+
+		return localNext
+	}
+	defer f.Close()
+
+	if err := syscall.Flock(int(f.Fd()), syscall.LOCK_EX); err != nil {
+		vsched.Fatalf("flock: %v", err)
+	}
+	defer syscall.Flock(int(f.Fd()), syscall.LOCK_UN) //nolint:errcheck
+
+	buf := make([]byte, 32)
+	k, _ := f.ReadAt(buf, 0)
+	i, _ := strconv.Atoi(strings.TrimSpace(string(buf[:k])))
+
+	if i >= n {
+		return -1
+	}
+
+	_, _ = f.WriteAt([]byte(fmt.Sprintf("%-31d", i+1)), 0)
+
+	return i
 }
 
 // ---------------------------------------------------------------------------------------------
@@ -279,6 +323,10 @@ func Coordinate(p *Prop, tier string, verifDir string, workers int) int {
 	defer os.RemoveAll(tmp)
 
 	self, _ := os.Executable()
+
+	if err := os.WriteFile(filepath.Join(tmp, "next"), []byte(fmt.Sprintf("%-31d", 0)), 0o644); err != nil {
+		vsched.Fatalf("%v", err)
+	}
 
 	type wres struct {
 		idx    int
